@@ -26,10 +26,13 @@ DEVS = [
     {"dev": {"k": "challenge_arbitrary"}},
     {"dev": {"k": "subst_disclosed_everywhere"}, "need_disclosed": 1},
     {"dev": {"k": "other_issuer_sig"}},
+    # no entry for the statement in the reported-claims map (with and without a forged proof), also when nothing is to be disclosed
+    {"dev": {"k": "reported_missing_entry"}},
+    {"dev": {"k": "forged_missing_entry"}},
 ]
-SHAPES = [dict(n_creds=1), dict(n_creds=1, comm=True), dict(n_creds=2, eq=True), dict(n_creds=2, eq=True, comm=True), dict(n_creds=2)]
+SHAPES = [dict(n_creds=1), dict(n_creds=1, comm=True), dict(n_creds=2, eq=True), dict(n_creds=2, eq=True, comm=True), dict(n_creds=2), dict(n_creds=1, disclosed=[]), dict(n_creds=2, disclosed=[])]
 
 
 def explore(ctx):
     return K.explore_generic("C01", ctx, DEVS, SHAPES, {"C01"},
-                             "(proof of another variant / no proof under a signature id, response vectors of length hidden+2-2..+2 incl. the exploited hidden+3 vector, identity elements, unrelated b_bar/sigma_2, wrong secret in each slot, arbitrary challenge, signature of another credential/issuer, substituted disclosed value)")
+                             "(proof of another variant / no proof under a signature id, response vectors of length hidden+2-2..+2 incl. the exploited hidden+3 vector, identity elements, unrelated b_bar/sigma_2, wrong secret in each slot, arbitrary challenge, signature of another credential/issuer, substituted disclosed value, the statement's entry missing from the reported-claims map with an honest and with a forged proof, also for statements that disclose nothing)")
